@@ -30,6 +30,7 @@ type c09Case struct {
 	Style    cfg.Style    `json:"style"`
 	Bracket  int          `json:"bracket"` // associativity: merge Files[:Bracket] and Files[Bracket:] first
 	Labels   []string     `json:"labels,omitempty"`
+	Build    string       `json:"build,omitempty"` // build version of the command ("" = a development build: the version attribute is not looked at)
 }
 
 // naming draws file names and patterns for n files and returns the names in the
@@ -94,8 +95,8 @@ func drawNaming(rt *rapid.T, n int) (names []string, patterns []string, label st
 	return ex, ex, "explicit-list"
 }
 
-func c09Build(files []cfg.Config, raw []string, names, patterns []string, st cfg.Style) (Outcome, error) {
-	var spec Spec
+func c09Build(files []cfg.Config, raw []string, names, patterns []string, st cfg.Style, build string) (Outcome, error) {
+	spec := Spec{Version: build}
 	for i, f := range files {
 		text := ""
 		if raw != nil && i < len(raw) && raw[i] != "\x00" {
@@ -123,7 +124,7 @@ func runInprocRel(s Spec) Outcome {
 	for _, p := range s.patterns() {
 		pats = append(pats, dir+"/"+p)
 	}
-	return runInprocAbs(dir, pats, s.Flags)
+	return runInprocAbsV(dir, pats, s.Flags, s.Version)
 }
 
 func normGeneric(v any) any {
@@ -169,9 +170,14 @@ func c09Eval(t tb, c c09Case) {
 		col.Exclude("serialiser-self-check")
 		return
 	}
+	single.Version = c.Build
 	base := runInproc(single)
 	defer base.cleanup()
-	if base.Res.Exit != 0 {
+	wantReject := false
+	if base.Res.Exit != 0 && c.Build != "" && observeVerdict(base).Stage == "input" && len(base.Report.Errors) == 1 && strings.Contains(base.Report.Errors[0], "version") {
+		// the whole declares a version this build rejects: every split form must be rejected the same way
+		wantReject = true
+	} else if base.Res.Exit != 0 {
 		col.Exclude("single-file-form-rejected")
 		col.Sample("rejected", 1, map[string]any{"errors": base.Report.Errors})
 		return
@@ -183,7 +189,7 @@ func c09Eval(t tb, c c09Case) {
 	}
 	col.Label(fmt.Sprintf("files:%d", len(c.Files)))
 	check := func(name string, files []cfg.Config, raw []string, names, patterns []string) bool {
-		o, err := c09Build(files, raw, names, patterns, c.Style)
+		o, err := c09Build(files, raw, names, patterns, c.Style, c.Build)
 		if err != nil {
 			col.Exclude("serialiser-self-check")
 			return true
@@ -192,6 +198,13 @@ func c09Eval(t tb, c c09Case) {
 		if o.Res.Panic != "" {
 			violation(t, "panic", oneLine(o.Res.Panic), c)
 			return false
+		}
+		if wantReject {
+			if o.Res.Exit == 0 || strings.Join(o.Report.Errors, "\n") != strings.Join(base.Report.Errors, "\n") {
+				violation(t, name+":version-verdict-differs", fmt.Sprintf("%s: the single-file form is rejected with %v, this form: exit %d %v", name, base.Report.Errors, o.Res.Exit, o.Report.Errors), c)
+				return false
+			}
+			return true
 		}
 		if o.Res.Exit != 0 {
 			violation(t, name+":rejected", fmt.Sprintf("%s: the single-file form is accepted, this form is rejected: %v", name, o.Report.Errors), c)
@@ -256,6 +269,11 @@ func canon(c cfg.Config) cfg.Config {
 
 // overridePairs enumerates, for every attribute, a two-file configuration whose second
 // file overrides / extends the first, with the single file it must be equivalent to.
+func withBuild(b string, c c09Case) c09Case {
+	c.Build = b
+	return c
+}
+
 func overridePairs() []c09Case {
 	ctor := sp("fx/lib.NewObj")
 	mk := func(label string, a, b, whole cfg.Config) c09Case {
@@ -298,6 +316,9 @@ func overridePairs() []c09Case {
 			cfg.Config{Decorators: []cfg.Decorator{{Tag: "t", Fn: "fx/libx.Decorate", Args: []cfg.Val{cfg.Int(2)}}}},
 			cfg.Config{Meta: cfg.Meta{Pkg: sp("app")}, Services: []cfg.Service{{Name: "s", Ctor: ctor, Tags: []cfg.Tag{{Name: "t"}}}}, Decorators: []cfg.Decorator{{Tag: "t", Fn: "fx/lib.Decorate", Args: []cfg.Val{cfg.Int(1)}}, {Tag: "t", Fn: "fx/libx.Decorate", Args: []cfg.Val{cfg.Int(2)}}}}),
 		mk("version", cfg.Config{Version: sp("1.0.0"), Meta: cfg.Meta{Pkg: sp("app")}}, cfg.Config{Version: sp("2.3.4")}, cfg.Config{Version: sp("2.3.4"), Meta: cfg.Meta{Pkg: sp("app")}}),
+		withBuild("1.4.2", mk("version:release-build:later-compatible", cfg.Config{Version: sp("2.0.0"), Meta: cfg.Meta{Pkg: sp("app")}}, cfg.Config{Version: sp("1.4.0")}, cfg.Config{Version: sp("1.4.0"), Meta: cfg.Meta{Pkg: sp("app")}})),
+		withBuild("1.4.2", mk("version:release-build:later-incompatible", cfg.Config{Version: sp("1.4.0"), Meta: cfg.Meta{Pkg: sp("app")}}, cfg.Config{Version: sp("2.0.0")}, cfg.Config{Version: sp("2.0.0"), Meta: cfg.Meta{Pkg: sp("app")}})),
+		withBuild("0.3.1", mk("version:release-build:later-compatible-0.x", cfg.Config{Version: sp("0.4.0"), Meta: cfg.Meta{Pkg: sp("app")}}, cfg.Config{Version: sp("0.3.0")}, cfg.Config{Version: sp("0.3.0"), Meta: cfg.Meta{Pkg: sp("app")}})),
 		mk("new-service-in-later-file", svc(cfg.Service{Name: "a", Ctor: ctor}), cfg.Config{Services: []cfg.Service{{Name: "b", Ctor: ctor, Args: []cfg.Val{cfg.Str("@a")}}}},
 			cfg.Config{Meta: cfg.Meta{Pkg: sp("app")}, Services: []cfg.Service{{Name: "a", Ctor: ctor}, {Name: "b", Ctor: ctor, Args: []cfg.Val{cfg.Str("@a")}}}}),
 	)
@@ -335,6 +356,13 @@ func TestC09(t *testing.T) {
 	opts.PkgMain = true
 	rapid.Check(t, func(rt *rapid.T) {
 		conf, labels := gen.Valid(rt, opts)
+		build := ""
+		if rapid.Bool().Draw(rt, "release-build") {
+			// a release build looks at the declared version: the splitter leaves decoy versions in earlier files
+			build = "1.4.2"
+			conf.Version = sp(rapid.SampledFrom([]string{"1.4.0", "1.0.9", "1.4.2-rc.1"}).Draw(rt, "version"))
+			labels.Add("release-build-with-declared-version")
+		}
 		n := rapid.IntRange(2, 4).Draw(rt, "nfiles")
 		files := gen.Split(rt, conf, n)
 		raw := make([]string, 0, len(files))
@@ -351,7 +379,7 @@ func TestC09(t *testing.T) {
 		}
 		names, patterns, nl := drawNaming(rt, len(files))
 		lb := append(labels.List(), "naming:"+nl, fmt.Sprintf("empty-files:%d", ne))
-		c := c09Case{Whole: conf, Files: files, Raw: raw, Names: names, Patterns: patterns, Style: drawStyle(rt), Bracket: rapid.IntRange(1, len(files)-1).Draw(rt, "bracket"), Labels: lb}
+		c := c09Case{Whole: conf, Files: files, Raw: raw, Names: names, Patterns: patterns, Style: drawStyle(rt), Bracket: rapid.IntRange(1, len(files)-1).Draw(rt, "bracket"), Labels: lb, Build: build}
 		c09Eval(rt, c)
 	})
 	col.Complete()
